@@ -53,6 +53,8 @@ fn fmt_body(body: &[Node], out: &mut String, ind: usize) {
     }
     for n in body {
         match n {
+            // pseudo instructions of the harness (e.g. "@snap") are not part of the program text
+            Node::Op(s) if s.starts_with('@') => {}
             Node::Op(s) => out.push_str(&format!("{pad}{s}\n")),
             Node::If(t, e) => {
                 out.push_str(&format!("{pad}if.true\n"));
